@@ -42,6 +42,9 @@ def step (w : W) (toks : List String) : W × String :=
   | ["schema", t] =>
     let (fs, ix) := catalogue t
     (applyOp w (.addCol t fs ix), "ok")
+  -- a schema operation inside a transaction that is discarded leaves the node as it was
+  | ["txschema", _] => (w, "discarded")
+  | ["txpatch", _, _] => (w, "discarded")
   | ["policy"] => (applyOp w (.addCol "P" ["name", "age"] []), "ok")
   | ["index", t, f, _] =>
     if !hasCol w t then (w, "error") else
